@@ -21,10 +21,8 @@ from harness import common
 from harness.common import Failure, lean_run
 
 PROP_MODULES = ["ArmiVerif.Props.C01"]
-PARTIAL = ("copy_spec is proved for any object list meeting CopyOK and for the model's root+deep-traversal list under an "
-           "explicit depth bound (no descendant deeper than the number of objects - true by pigeonhole, not proved); "
-           "`copy` is still outside the op alphabet of inv_run/wft_run; acyclicity of the state after a copy is not proved; "
-           "locator/grid content beyond attached/detached/owner is C07's; payload (parameter) equality of "
+PARTIAL = ("deepcopy and pickle are one model operation (both go through __getstate__/__setstate__); the payload of a "
+           "copy (parameters, serial numbers) is C16's; locator/grid content beyond attached/detached/owner is C07's; payload (parameter) equality of "
            "copies is C16's; the sort comparator (__lt__ on locators / component diameters) is a parameter of the "
            "model (ranks computed with the real __lt__); Core.add bookkeeping beyond the child list and locator "
            "is C14's")
